@@ -17,6 +17,7 @@ import (
 	"strconv"
 	"strings"
 	"sync"
+	"syscall"
 	"time"
 
 	"verif/internal/smt"
@@ -157,6 +158,7 @@ func cmdWorker(args []string) int {
 		}
 	}
 	initSec := time.Since(t0).Seconds()
+	debug.SetGCPercent(200) // 400 while the bus tables are built, lower once the base state exists
 	if *scan {
 		hits, nfn := eng.GlobalWriteScan()
 		emit(workerOut{Scan: hits, ScanFunctions: nfn, ScanDone: true})
@@ -243,6 +245,7 @@ func runWorkers(pd *PropDef, jobs []sym.Job, workers int, solver string, timeout
 				args = append(args, "--scan-global-writes")
 			}
 			cmd := exec.Command(self, args...)
+			cmd.SysProcAttr = &syscall.SysProcAttr{Pdeathsig: syscall.SIGKILL} // no orphan workers if the driver is killed
 			cmd.Dir = verifDir
 			cmd.Env = append(os.Environ(), "GOFLAGS=-mod=mod", "GOPROXY=off", "GOSUMDB=off", "GOTOOLCHAIN=local")
 			outb, err := cmd.CombinedOutput()
